@@ -436,7 +436,11 @@ func judge(res *Result) *judged {
 				add(s.kind+"-protocol", s.kind, "no-done-after-cancel", "cancel of running %s got %s", s.kind, compress(rs))
 			}
 			checkNotifications(jd, res, s)
-			jd.outcomes = append(jd.outcomes, label+"-"+s.kind+":"+compress(append(append([]Reply{}, s.streamed...), rs[len(rs)-btoi(sawDone):]...)))
+			all := append([]Reply{}, s.streamed...)
+			if sawDone {
+				all = append(all, Reply{Type: "done"})
+			}
+			jd.outcomes = append(jd.outcomes, label+"-"+s.kind+":"+compress(all))
 		}
 	}
 
@@ -448,13 +452,6 @@ func judge(res *Result) *judged {
 		add("reply-opid", site(e.Step), "foreign-opid", "during step %d (%s) a reply with operation ID %q arrived that belongs to no request: %s", e.Step, q(res.Steps[e.Step].Msg), replies[i].OpID, q(e.Data))
 	}
 	return jd
-}
-
-func btoi(b bool) int {
-	if b {
-		return 1
-	}
-	return 0
 }
 
 // checkQueryPart checks (ok|warning)* (done|error) with nothing after it.
